@@ -635,7 +635,7 @@ def gen(ctx):
             for second in ('sigterm', 'cancel_run', 'shutdown', 'abort'):
                 cases.append({'mode': 'U', 'fault': fault, 'cause': first, 'instant': 'running',
                               'second': second})
-    nperturb = 1 if quick else 3
+    nperturb = 1 if quick else 12
     out = []
     for p in range(nperturb):
         for i, c in enumerate(cases):
